@@ -317,14 +317,16 @@ def main(tier, replay=None):
     res.coverage["known_finding_F20_reproduced"] = st.f20
     res.coverage["exhaustive"] = False
     res.coverage["rule"] = (
-        "corpus (F14, F15, F20, two observations) first; then random processes from the family: 1-4 top-level statements, "
+        "corpus (F14, F15, F20, two observations, seven clocked shapes K1-K7) first; then random processes from the family: 1-4 top-level statements, "
         "nesting <= 3 (thorough: also 4) of signal/variable assignments (simple, conditional, selected, force, release), "
         "if/elsif/else, case, for/while/plain loops with next/exit, procedure calls (positional and named; in, inout, out), "
         "assert/report, null; expressions over bit, integer, bit_vector, array, record and boolean signals, variables, "
         "literals: indexed and sliced names, record elements, a selected package signal, function calls (positional/named), "
         "operators, aggregates, qualified and parenthesised expressions, 'image; sensitivity lists = random subset of the "
-        "working set plus signals never read, entries as simple, indexed or sliced names; 7% clocked (rising_edge/"
-        "falling_edge/'event in the first or second condition), 4% `all`, 4% without list; 10% with constructs outside "
+        "working set plus signals never read, entries as simple, indexed or sliced names; 7% clocked: the edge test "
+        "(rising_edge/falling_edge call or 'event) in the first condition or in the second of exactly two, as the "
+        "condition itself, as left or right operand of and/or/xor, under not, in parentheses, nested up to 3 levels; "
+        "4% `all`, 4% without list; 10% with constructs outside "
         "the family (signal in a target index, slice bound or assert report), 5% at the boundary of the clock heuristic; "
         "out-mode signal actuals in ~1.5%. non-trivial = a combinational in-family process with >= 1 missing and >= 1 "
         "superfluous signal expected, or a clocked process; distinct by hash of id+AST")
